@@ -25,6 +25,7 @@ EXPLANATION = (
     "two-call sequence of failing / scalar / batch results under all 16 settings: value, previous value, untouched state on disabled or failing "
     "calls exactly as specified (undecided, not an error, when the code leaves the array model)"
     "; the cascade is also interpreted under ranges bounded on one side and unbounded (clipping to (-inf, inf) is the identity), with static helpers of other classes inlined"
+    "; P1 - every output is defuzzified once per process(), after all rule blocks (the previous value is the one held before the call); R1-sem - the variable constructors store default value, range and flags as given (0.0 included)"
 )
 ASSUMPTIONS = [
     "numpy.nditer(readwrite) iterates the result in row order; numpy.clip(x, lo, hi) clips to [lo, hi]",
